@@ -171,6 +171,17 @@ def oracle(sc):
     cent = np.asarray(sc["cent"], dtype=float)
     sc = dict(sc, x=xin_, cent=cent)
     m = km(cent)
+    if sc.get("fitted_iters"):
+        # a machine that was *trained* (a few iterations, not to convergence) and is then asked about its training data: what counts
+        # are its current centroids
+        from bob.learn.em import KMeansMachine
+
+        m = KMeansMachine(len(cent), init_method=np.array(cent, dtype=float), max_iter=int(sc["fitted_iters"]), convergence_threshold=None)
+        r_ = core.impl(lambda: m.fit(xin_))
+        if isinstance(r_, core.ImplError) or not np.all(np.isfinite(np.asarray(m.centroids_, dtype=float))):
+            return None
+        cent = np.asarray(m.centroids_, dtype=float)
+        sc = dict(sc, cent=cent)
     ref = brute(x, cent)
     keep = margins_ok(ref)
     d = core.impl(lambda: np.asarray(m.transform(xin_)))
@@ -225,10 +236,14 @@ def search(ctx):
             sc["x_dtype"] = str(np.asarray(sc["x"]).dtype)
         ctx.count(f"search:offset~1e{int(np.log10(max(sc['offset'] / sc['spread'], 1)))}")
         ctx.case(["s", core.tolist(sc["x"]), core.tolist(sc["cent"])], nontrivial=True)
+        if i % 5 == 2:
+            sc["fitted_iters"] = int(ctx.rng.integers(1, 3))
+            xs_ = np.asarray(sc["x"], dtype=float)
+            sc["cent"] = xs_[ctx.rng.choice(len(xs_), sc["K"], replace=False)] + 1e-3 * sc["spread"]  # a poor start: assignments still move
         f = oracle(sc)
         if f and f["sig"] not in seen:
             seen.add(f["sig"])
-            f["input"] = {k: sc[k] for k in ("K", "D", "x", "cent", "sizes", "offset", "spread")}
+            f["input"] = {k: sc[k] for k in ("K", "D", "x", "cent", "sizes", "offset", "spread", "fitted_iters") if k in sc}
             fails.append(f)
     # one data set of several thousand rows (in-memory arrays of that size are ordinary; internal batching must not lose rows)
     big = big_scenario(ctx.seed + 5)
